@@ -64,7 +64,12 @@ def table_rows():
         fb = [{"name": n, "keyParams": ["key"], "mutates": True, "marked": ["key"], "marksAll": False} for n in FALLBACK_FNS]
         fb.append({"name": "rename", "keyParams": ["old_key", "new_key"], "mutates": True, "marked": ["old_key", "new_key"], "marksAll": False})
         fb.append({"name": "flush_db", "keyParams": [], "mutates": True, "marked": [], "marksAll": True})
+        fb.append({"name": "touch", "keyParams": ["key"], "mutates": True, "marked": ["key"], "marksAll": False})
         return fb, rows
+    if not any(x["name"] == "touch" for x in rows):
+        # no StorageEngine::touch in this tree: the consumer-group writes reach no engine function at all, which for the
+        # model is a storage call that marks nothing
+        rows = rows + [{"name": "touch", "keyParams": ["key"], "mutates": True, "marked": [], "marksAll": False, "synthetic": True}]
     return rows, None
 
 
@@ -166,9 +171,36 @@ def classify(args):
         return one(simple[name])
     if name == "XADD":
         return one("xadd" if len(a) > 2 and a[2] == b"*" else "xadd_with_id")
-    if name == "XGROUP" and len(a) > 2 and up(a[1]) == "CREATE":
-        # set_value is called only when MKSTREAM creates the key
-        return [("set_value", "key", a[2], None)], lambda r, bf: is_ok(r) and bf.get(a[2]) is None
+    # consumer-group writes change the shared state of the stream behind the engine's back; with StorageEngine::touch
+    # (C08_8) the handler marks the key after a successful mutation: fn `touch`
+    if name == "XGROUP" and len(a) > 3:
+        sub, k = up(a[1]), a[2]
+        if sub == "CREATE":
+            # on a missing key MKSTREAM stores a new stream through set_value; on an existing stream the group is added in place
+            return ([("set_value", "key", k, None, lambda r, bf: is_ok(r) and bf.get(k) is None),
+                     ("touch", "key", k, None, lambda r, bf: is_ok(r) and bf.get(k) is not None)], lambda r, bf: is_ok(r))
+        if sub in ("DESTROY", "CREATECONSUMER"):
+            return [("touch", "key", k, None)], lambda r, bf: is_one(r)
+        if sub == "DELCONSUMER":
+            # touched iff the consumer existed, which the reply (number of pending entries dropped) does not tell:
+            # the observed change of the key's group state decides (see Sess.tokens)
+            return [("touch", "key", k, None)], lambda r, bf: False
+        if sub == "SETID":
+            return [("touch", "key", k, None)], lambda r, bf: is_ok(r)
+        return None
+    if name == "XREADGROUP":
+        ua = [up(x) for x in a]
+        if "STREAMS" in ua:
+            rest = a[ua.index("STREAMS") + 1:]
+            ks, ids = rest[:len(rest) // 2], rest[len(rest) // 2:]
+            # only a read with ">" delivers (moves the cursor, fills the pending list, may create the consumer)
+            return ([("touch", "key", k, None, (lambda kk: lambda r, bf: not_err(r) and bf.get(kk) is not None)(k))
+                     for k, i in zip(ks, ids) if i == b">"], lambda r, bf: not_err(r))
+        return None
+    if name == "XACK" and len(a) > 1:
+        return [("touch", "key", a[1], None)], lambda r, bf: r[0] == "i" and r[1] > 0
+    if name in ("XCLAIM", "XAUTOCLAIM") and len(a) > 1:
+        return [("touch", "key", a[1], None)], lambda r, bf: r[0] == "a" and bf.get(a[1]) is not None   # a missing key: empty array, nothing done
     return None
 
 
@@ -247,7 +279,14 @@ class Sess:
         elif t == "zset":
             content = c.cmd("ZRANGE", key, "0", "-1", "WITHSCORES")
         elif t == "stream":
-            content = c.cmd("XRANGE", key, "-", "+")
+            # entries and the consumer-group state that travels with the key (what XINFO GROUPS / XPENDING read back)
+            groups = c.cmd("XINFO", "GROUPS", key)
+            pend = []
+            if groups[0] == "a":
+                for g in groups[1]:
+                    if g[0] == "a" and len(g[1]) > 1 and g[1][1][0] == "b":
+                        pend.append((g[1][1][1], c.cmd("XPENDING", key, g[1][1][1])))
+            content = (c.cmd("XRANGE", key, "-", "+"), groups, pend)
         else:
             content = ("?", t)
         ttl = c.cmd("PTTL", key)[1]
@@ -274,13 +313,18 @@ class Sess:
             return "p0@1"
         return "p%d" % y["val"] if y["ttl"] is None else "p%d@%d" % (y["val"], now + y["ttl"] + 2)
 
-    def tokens(self, ops, done, before, after, now):
+    def tokens(self, ops, done, before, after, now, reply=None):
         toks = []
         for op in ops:
             if op[0] == "flush":
                 if done:
                     toks.append("f:%d" % int(op[1]))
                 continue
+            if len(op) > 4:
+                # this storage call is made only under a condition on the reply / the state before (otherwise another one is)
+                if not op[4](reply, before):
+                    continue
+                op = op[:4]
             fn, param, key, pf = op
             present = before[pf if pf is not None else key] is not None
             ch = self.chg(before[key], after[key], now)
@@ -293,7 +337,7 @@ class Sess:
         ks = []
         for op in ops:
             if op[0] != "flush":
-                for k in (op[2], op[3]):
+                for k in op[2:4]:
                     if k is not None and k not in ks:
                         ks.append(k)
         return ks
@@ -354,7 +398,7 @@ class Sess:
         r = cli.cmd(*args)
         now = self.now()
         after = {k: self.dump(self.db[c], k) for k in keys}
-        toks = self.tokens(ops, done(r, before), before, after, now)
+        toks = self.tokens(ops, done(r, before), before, after, now, r)
         m = self.ask("cmd %d %d %s" % (c, now, " ".join(toks)))
         st = self.record("write", c, args, "err" if r[0] == "e" else "ok", m)
         st["ops"] = toks
@@ -439,7 +483,7 @@ class Sess:
                 if cl:
                     bf = {k: before[(d0, k)] for k in self.keys_of(cl[0])}
                     af = {k: after[(d0, k)] for k in self.keys_of(cl[0])}
-                    segments[-1] += self.tokens(cl[0], cl[1](el, bf), bf, af, now)
+                    segments[-1] += self.tokens(cl[0], cl[1](el, bf), bf, af, now, el)
         toks = segments[0]
         m = self.ask("exec %d %d %s" % (c, now, " ".join(toks)))
         code, verdict = m.rsplit(" ", 1)
@@ -561,6 +605,8 @@ STATES = {
     "hash": [["HSET", K, "f", "1", "g", "x"]],
     "zset": [["ZADD", K, "1", "a", "2", "b", "3", "c"]],
     "stream": [["XADD", K, "1-1", "f", "v"], ["XADD", K, "2-1", "f", "v"]],
+    "stream+group": [["XADD", K, "1-1", "f", "v"], ["XADD", K, "2-1", "f", "v"], ["XGROUP", "CREATE", K, "g", "0"],
+                     ["XREADGROUP", "GROUP", "g", "c1", "COUNT", "1", "STREAMS", K, ">"]],
     "absent": [],
     "string+ttl": [["SET", K, "10", "EX", "1000"]],
     "list+ttl": [["RPUSH", K, "a", "b", "c"], ["EXPIRE", K, "1000"]],
@@ -605,6 +651,18 @@ COMMANDS = [
     ("XDEL", ["XDEL", K, "1-1"], None, None), ("XDEL-missing", ["XDEL", K, "7-7"], None, None),
     ("XTRIM", ["XTRIM", K, "MAXLEN", "1"], None, None), ("XTRIM-none", ["XTRIM", K, "MAXLEN", "100"], None, None),
     ("XGROUP-MKSTREAM", ["XGROUP", "CREATE", K, "g", "$", "MKSTREAM"], None, None),
+    # consumer-group writes on the watched stream (state `stream+group`: group g, consumer c1 with 1-1 pending)
+    ("XGROUP-CREATE", ["XGROUP", "CREATE", K, "g2", "0"], None, None), ("XGROUP-CREATE-busy", ["XGROUP", "CREATE", K, "g", "$"], None, None),
+    ("XGROUP-SETID", ["XGROUP", "SETID", K, "g", "2-1"], None, None), ("XGROUP-DESTROY", ["XGROUP", "DESTROY", K, "g"], None, None),
+    ("XGROUP-CREATECONSUMER", ["XGROUP", "CREATECONSUMER", K, "g", "c2"], None, None),
+    ("XGROUP-CREATECONSUMER-existing", ["XGROUP", "CREATECONSUMER", K, "g", "c1"], None, None),
+    ("XGROUP-DELCONSUMER", ["XGROUP", "DELCONSUMER", K, "g", "c1"], None, None),
+    ("XGROUP-DELCONSUMER-missing", ["XGROUP", "DELCONSUMER", K, "g", "nobody"], None, None),
+    ("XREADGROUP-new", ["XREADGROUP", "GROUP", "g", "c2", "COUNT", "1", "STREAMS", K, ">"], None, None),
+    ("XREADGROUP-history", ["XREADGROUP", "GROUP", "g", "c1", "COUNT", "5", "STREAMS", K, "0"], None, None),
+    ("XACK", ["XACK", K, "g", "1-1"], None, None), ("XACK-none", ["XACK", K, "g", "9-9"], None, None),
+    ("XCLAIM", ["XCLAIM", K, "g", "c2", "0", "1-1"], None, None),
+    ("XPENDING", ["XPENDING", K, "g"], None, None), ("XINFO-GROUPS", ["XINFO", "GROUPS", K], None, None),
     # reads of the watched key: never a change
     ("GET", ["GET", K], None, None), ("TYPE", ["TYPE", K], None, None), ("EXISTS", ["EXISTS", K], None, None), ("PTTL", ["PTTL", K], None, None),
     ("LRANGE", ["LRANGE", K, "0", "-1"], None, None), ("SMEMBERS", ["SMEMBERS", K], None, None), ("HGETALL", ["HGETALL", K], None, None),
@@ -629,6 +687,8 @@ def home_state(label):
         return "hash"
     if n[0] == "Z":
         return "zset"
+    if n in ("XGROUP", "XREADGROUP", "XACK", "XCLAIM", "XPENDING", "XINFO"):
+        return "stream+group"
     if n[0] == "X":
         return "stream"
     if n == "LRANGE":
@@ -1125,6 +1185,8 @@ def run_round(rep, rows, quirks, r, base_db, tier, n_round):
                 if only and state not in only:
                     continue
                 for path in PATHS + SELECT_PATHS:
+                    if tier == "quick" and path in SELECT_PATHS and (len(cells) + hash_str(label + state)) % 3:
+                        continue                    # quick tier: the two SELECT paths on a third of the (command, state) pairs
                     if ostate is None:
                         cells.append((label, args, ostate, state, path, "other", None))
                     else:
@@ -1207,12 +1269,12 @@ def main(tier, seed):
     rep.rule = ("every client command is mirrored as an event to the Lean machine Ferrous.Watch.step; the effect of each write on its keys is observed "
                 "(dump before/after through a read-only control connection), the marking is predicted by the model from the regenerated table "
                 "Gen.storageFns; at every EXEC: server reply vs code model vs Spec verdict, and the probe key written by the transaction "
-                "(nil executes nothing, array executes).  Matrix = %d command variants x 9 states of the watched key x 6 paths (other connection, "
+                "(nil executes nothing, array executes).  Matrix = %d command variants x 10 states of the watched key x 6 paths (other connection, "
                 "same connection, inside another EXEC, inside EVAL) + the same commands on other keys (same shard by FNV-1a, other shard, watched key "
                 "present/absent) + scenarios (forgetting, re-WATCH, served blocking pop, expiry with the sweeper paused and running, SELECT between "
                 "WATCH and UNWATCH/EXEC on fresh servers; expiry of a watched key of every type, lazily and by the sweeper alone, nobody touching the key).  Two more matrix paths: the watcher SELECTs another database between WATCH and EXEC and the command runs in the WATCH-time database / only on the same key name in the EXEC-time database.  distinct = (command variant, state, path, server outcome, model answer)" % len(COMMANDS))
     rep.assumptions = [
-        "consumer-group state (XGROUP/XREADGROUP/XACK/XCLAIM on an existing stream) is not part of the key's value here (as in Redis, these do not touch WATCH); streams are observed through XRANGE",
+        "the value of a stream key includes its consumer-group state (groups, consumers, pending entries, last-delivered id: observed through XRANGE + XINFO GROUPS + XPENDING); the consumer-group writes are judged like every other write although Redis itself does not signal them to WATCH (only the key created by XGROUP CREATE MKSTREAM); XAUTOCLAIM is not dispatched by the server and not in the matrix",
         "global_counter (u64) is modelled unbounded: 2^64 modifications of one shard are out of reach",
         "a connection that is closed while it holds watches is not modelled (its registrations leak like those of EXEC/DISCARD, which only raises watcher counts)",
         "the abort decision is compared per EXEC; the individual replies of the queued commands belong to C07",
